@@ -175,7 +175,11 @@ def showResult : Except String (List FileD) → String
 def validModes (s : String) : Bool :=
   (s.splitOn ",").all (fun m => match m.toNat? with | some n => n ≤ 7 | none => false)
 
-def validSpec (s : String) : Bool :=
+def validSpec (s0 : String) : Bool :=
+  -- an optional trailing `n` (no concurrent batch)
+  let s := match s0.toList.reverse with
+    | 'n' :: rest => String.ofList rest.reverse
+    | _ => s0
   s == "x" || (match s.toList with
     | 's' :: rest => match (String.ofList rest).splitOn ":" with
       | [a, b] => a.toNat?.isSome && b.toNat?.isSome
